@@ -296,7 +296,7 @@ class UTPM(Ring, RawAlgorithmsMixIn):
                 if x_shp[ax] == 1 and tmp_data.shape[ax] != 1:
                     tmp_data = tmp_data.sum(axis=ax, keepdims=True)
             tmp = cls(tmp_data)
-        xbar += tmp
+            xbar += tmp
         # print 'funcargs=',funcargs
         # print y[funcargs[0]]
 
